@@ -442,6 +442,41 @@ def make_probe(desc, k):
             exp = [] if pos in ("decl", "assign") else ["body"]
             return {"stmts": stmts + [A.pr(S("ok"))], "expect": exp + ["ok"], "tag": "dup_name_control", "what": "distinct names in %s" % pos}
         return {"stmts": stmts, "expect": None, "tag": "dup_name", "what": "name bound twice (%s) in %s position" % (shape, pos)}
+    if desc[0] == "order":
+        name = desc[1]
+        xs, take, f = "ox%d" % k, "take%d" % k, "of%d" % k
+        pre = [A.Declare(V(xs), A.lst(I(1), I(2))), A.FuncStmt(take, [V("l")], False, [A.Assign(A.Index(V("l"), I(0)), I(99)), A.Return(I(0))]),
+               A.FuncStmt(f, [V("r")], True, [A.Return(V("r"))])]
+        if name == "list_spread_then_mutate":
+            # a spread item is expanded when its turn comes: what a later item does to the list does not reach the copy
+            st = pre + [A.pr(A.ListE([(V(xs), True), (A.call(take, V(xs)), False)], False)), A.pr(V(xs))]
+            exp = render([1, 2, 0]) + render([99, 2])
+        elif name == "arg_spread_then_mutate":
+            st = pre + [A.pr(A.Call(V(f), [(V(xs), True), (A.call(take, V(xs)), False), (V(xs), True)])), A.pr(V(xs))]
+            exp = render([1, 2, 0, 99, 2]) + render([99, 2])
+        elif name == "object_spread_then_mutate":
+            ob = "oo%d" % k
+            st = [A.Declare(V(ob), A.obj(("a", I(1)))), A.FuncStmt(take, [], False, [A.Assign(A.Prop(V(ob), "a", False), I(99)), A.Return(I(0))]),
+                  A.pr(A.ObjectE([A.Single(V(ob), True, False), A.Pair(S("z"), A.call(take))])), A.pr(V(ob))]
+            exp = render({"a": 1, "z": 0}) + render({"a": 99})
+        elif name.startswith("pattern_key_reads_earlier_binding"):
+            # the items of an object pattern are bound one after the other: a computed name may use what an earlier item bound
+            kn, vn = "pk%d" % k, "pv%d" % k
+            pat = lambda: A.ObjectE([A.Pair(S("kind"), V(kn)), A.Pair(V(kn), V(vn)), A.Single(V("pr%d" % k), False, True)])
+            src = lambda: A.obj(("kind", S("size")), ("size", I(3)), ("other", I(4)))
+            shown = [A.pr(V(kn)), A.pr(V(vn)), A.pr(V("pr%d" % k))]
+            if name.endswith("_decl"):
+                st = [A.Declare(pat(), src())] + shown
+            elif name.endswith("_assign"):
+                st = [A.Declare(V(kn), S("unset")), A.Declare(V(vn), A.Null()), A.Declare(V("pr%d" % k), A.Null()), A.Assign(pat(), src())] + shown
+            elif name.endswith("_param"):
+                st = [A.FuncStmt(f, [pat()], False, shown), A.ExprStmt(A.call(f, src()))]
+            else:
+                st = [A.For(A.lst(V("_"), pat()), A.lst(src()), shown)]
+            exp = ["size", "3"] + render({"other": 4})
+        else:
+            raise ValueError(name)
+        return {"stmts": st, "expect": exp, "tag": "evaluation_order", "what": name}
     if desc[0] == "misuse":
         name = desc[1]
         o = "mo%d" % k
@@ -522,6 +557,9 @@ def run(rep, tier):
                     descs.append(("argsplit", nparams, collect, args, m))
     for m in MISUSE:
         descs.append(("misuse", m))
+    for name in ("list_spread_then_mutate", "arg_spread_then_mutate", "object_spread_then_mutate", "pattern_key_reads_earlier_binding_decl",
+                 "pattern_key_reads_earlier_binding_assign", "pattern_key_reads_earlier_binding_param", "pattern_key_reads_earlier_binding_for"):
+        descs.append(("order", name))
     for nfixed in (0, 1, 2):
         for nlist in (0, 1, 2, 3):
             descs.append(("restfresh", nfixed, nlist))
